@@ -147,7 +147,7 @@ contract(CMD + "SetPropertiesCommand.tobytes",
          ensures={"wf": "wf_frame(result, 0x02)",
                   "id": "result[-3] == next_id(old(Command._message_id))",
                   "body": "result[10:-3] == bytes([0xB0, len(self._properties)]) + final('R')"},
-         loops={"0": {"ghost_init": {"R": "bytes()"},
+         loops={"0": {"match": "self._properties.items()", "ghost_init": {"R": "bytes()"},
                       "havoc": {"R": "bytes"},
                       "define": {"payload": "bytearray([0xB0, len(self._properties)]) + R"},
                       "invariant": ["len(R) <= 16 * _i"],
@@ -165,7 +165,7 @@ contract(CMD + "GetPropertiesCommand.tobytes",
          ensures={"wf": "wf_frame(result, 0x03)",
                   "id": "result[-3] == next_id(old(Command._message_id))",
                   "body": "result[10:-3] == bytes([0xB1, len(self._properties)]) + final('R')"},
-         loops={"0": {"ghost_init": {"R": "bytes()"},
+         loops={"0": {"match": "self._properties", "ghost_init": {"R": "bytes()"},
                       "havoc": {"R": "bytes"},
                       "define": {"payload": "bytearray([0xB1, len(self._properties)]) + R"},
                       "invariant": ["len(R) == 2 * _i"],
